@@ -23,7 +23,10 @@ RULE = (
     "compared with the model's text. On the default SQLite dialect every such statement is also EXECUTED in "
     "bound and in literal form and the rows compared (oracle). Spec-side families: SQLite 'SELECT (<raw text>)' "
     "against the model's lexer; decimal.Decimal(text) acceptance against the model's grammar; the oracle's "
-    "Python lexers against the Coq lexers. non-trivial = the value needs escaping, is negative, non-finite, "
+    "Python lexers against the Coq lexers. The compiler's %(name)s passes over the finished text "
+    "(_process_positional for qmark/format, the numeric passes) are part of the model; a SQLite engine with "
+    "paramstyle='numeric' executes the statements that combine a literal_execute string with an expanding "
+    "parameter (oracle only). non-trivial = the value needs escaping, is negative, non-finite, "
     "non-ASCII, or the raw text contains a quote"
 )
 TRUSTED = [
@@ -42,6 +45,9 @@ TRUSTED = [
     "Python str.replace(c, r) for a one-character c is character-wise substitution; CPython's "
     "decimal.Decimal(str) acceptance is re-implemented in Gallina (decimal_accepts) and compared with the "
     "live interpreter on every run (whitespace and decimal-digit tables regenerated from unicodedata)",
+    "the %(name)s passes of the compiler are modelled on the rendered literal (list) only: a pattern that "
+    "straddles the literal and the surrounding statement text is not described (the harness statements cannot "
+    "produce one)",
     "str(float) / str(Decimal) / isoformat are not modelled: numeric values enter the model as the text "
     "str(value) and their Python type",
 ]
@@ -59,7 +65,8 @@ LEVEL_TEXT = (
     "the server's lexical grammar, denotes exactly the value and leaves the rest of the statement untouched "
     "(also through the driver's %% collapse, the N prefix and inside IN lists); integers, dates/times, "
     "booleans and NULL likewise; refuted (with guarded complements) for non-literal Numeric/Float texts, for a "
-    "negative literal after unary minus and for the literal_execute re-split of IN lists under bind_expression."
+    "negative literal after unary minus, for the literal_execute re-split of IN lists under bind_expression "
+    "and for the compiler's %(name)s passes (qmark/format/numeric paramstyles) running over rendered literals."
 )
 LEVEL_NOTE = (
     "Trusted: Coq kernel; the transcription (source pin + regenerated replace tables + correspondence on "
@@ -513,6 +520,11 @@ CONFIGS = [
     (3, 2, 6), (3, 2, 2), (3, 1, 0),
     (4, 2, 6), (4, 2, 1), (4, 1, 6),
 ]
+# quick tier: the exhaustive small-string sweep uses one configuration per code path
+SMALL_CONFIGS = [
+    (0, 2, 6), (0, 2, 2), (0, 2, 4), (1, 2, 6), (1, 1, 6), (1, 1, 5), (2, 2, 6), (2, 0, 6), (2, 1, 0), (3, 2, 6),
+    (3, 2, 2), (4, 2, 6), (4, 2, 1),
+]
 STR_POS = [0, 1, 3, 4, 5, 6, 7]
 SMALL = "'\\%a, "
 ATOMS = [
@@ -562,7 +574,7 @@ def gen_cases(rng, tier):
     # --- exhaustive small strings
     smalls = [""] + [a for a in SMALL] + [a + b for a in SMALL for b in SMALL]
     k = 0
-    for cfg in sorted(set(CONFIGS)):
+    for cfg in sorted(set(CONFIGS)) if big else SMALL_CONFIGS:
         for s in smalls:
             for mode in (0, 1) if big else (k % 2,):
                 if big:
@@ -573,7 +585,7 @@ def gen_cases(rng, tier):
                 for pos in poss:
                     cases.append(_case(cfg, mode, pos, (k + mode) % 3, [_v_str(s)], "small-str"))
     # --- random strings in every position
-    for _ in range(6000 if big else 450):
+    for _ in range(6000 if big else 380):
         cfg = rng.choice(CONFIGS)
         cases.append(_case(cfg, rng.randint(0, 1), rng.choice(STR_POS), rng.randint(0, 2), [_v_str(_rstr(rng))], "rand-str"))
     # --- IN lists
@@ -635,7 +647,7 @@ def gen_cases(rng, tier):
         cases.append(_case(cfg, rng.randint(0, 1), pos, ty, vals, "temporal"))
     # --- spec side: SQLite lexer on raw text
     RAW = ["'", "'", "''", "a", "\\", "%", " ", "\n", "N", "é", ":", "?", "'a'", "b"]
-    for _ in range(5000 if big else 350):
+    for _ in range(5000 if big else 280):
         r = "".join(rng.choice(RAW) for _ in range(rng.randint(0, 7)))
         if rng.random() < 0.5:
             r = "'" + r + "'"
@@ -644,18 +656,18 @@ def gen_cases(rng, tier):
     DA = list("0123456789") + ["+", "-", ".", "e", "E", "_", " ", "\n", "n", "a", "N", "i", "f", "I", "s", "S", "t", "y", "inf", "nan", "NaN", "Infinity", "snan", "٠", " ", " ", "１", "x", ",", "'", "\x1c", "\x85", "\U0001d7ce"]
     for t in NUM_STR + NUM_DEC + NUM_FLOAT:
         cases.append({"in": [2, S(t)], "kind": "decimal-accepts"})
-    for _ in range(6000 if big else 400):
+    for _ in range(6000 if big else 330):
         t = "".join(rng.choice(DA) for _ in range(rng.randint(0, 6)))
         cases.append({"in": [2, S(t)], "kind": "decimal-accepts"})
     # --- spec side: the oracle's Python lexers against the Coq lexers
     LX = ["'", "'", "''", "\\", "\\\\", "\\'", "a", "%", "N", "n", "0", "7", "x", "u", "Z", "_", " ", "é", "b", "t"]
-    for _ in range(4000 if big else 300):
+    for _ in range(4000 if big else 230):
         r = "".join(rng.choice(LX) for _ in range(rng.randint(0, 7)))
         if rng.random() < 0.7:
             r = rng.choice(["'", "'", "N'"]) + r
         cases.append({"in": [3, rng.randint(0, 2), rng.randint(0, 1), S(r)], "kind": "pylex-str"})
     NX = list("0123456789") + ["+", "-", ".", "e", "E", "_", " ", "a", ")", ",", "$", "é"]
-    for _ in range(3000 if big else 250):
+    for _ in range(3000 if big else 190):
         r = "".join(rng.choice(NX) for _ in range(rng.randint(0, 7)))
         cases.append({"in": [4, S(r)], "kind": "pylex-num"})
     for _ in range(1000 if big else 120):
